@@ -1692,7 +1692,8 @@ pub fn fam_large(cfg: &Config, flags: Flags, docs: usize, nodes: usize) -> (Repo
 			])
 		} else if i % 2 == 0 {
 			// one wide object: many entries, many duplicates of a few keys
-			let n = nodes.min(20000);
+			// (the long-key documents are kept below the 1 MiB up to which the reference builds its tree)
+			let n = if i % 4 == 2 { nodes.min(8000) } else { nodes.min(20000) };
 			let mut entries = Vec::with_capacity(n);
 			for j in 0..n {
 				// every other such object: keys longer than any inline capacity that share their first and
